@@ -14,7 +14,7 @@ if "--tier" in sys.argv:
     args = [a for a in args if a != tier]
 ids = args or sorted(os.path.basename(d) for d in glob.glob("/verif/seeded/C*-*"))
 # changes whose mechanism belongs (also) to another property's check
-EXTRA = {"C01-H": ["C03"], "C03-G": ["C16"], "C06-H": ["C05"], "C08-G": ["C16"], "C16-H": ["C04"], "C08-F": ["C12"], "C05-F": ["C09"], "C01-F": ["C09"], "C02-D": ["C17"], "C14-D": ["C03"], "C08-C": ["C10"], "C08-D": ["C14"], "C04-C": ["C09"], "C07-D": ["C03", "C18"], "C06-D": ["C05"], "C01-K": ["C16"], "C01-L": ["C03"], "C02-L": ["C09"], "C17-J": ["C02", "C15"]}
+EXTRA = {"C01-H": ["C03"], "C03-G": ["C16"], "C06-H": ["C05"], "C08-G": ["C16"], "C16-H": ["C04"], "C08-F": ["C12"], "C05-F": ["C09"], "C01-F": ["C09"], "C02-D": ["C17"], "C14-D": ["C03"], "C08-C": ["C10"], "C08-D": ["C14"], "C04-C": ["C09"], "C07-D": ["C03", "C18"], "C06-D": ["C05"], "C01-K": ["C16"], "C01-L": ["C03"], "C02-L": ["C09"], "C17-J": ["C02", "C15"], "C01-M": ["C04"], "C01-N": ["C12"], "C07-M": ["C18"], "C09-M": ["C18"], "C15-K": ["C16"], "C15-M": ["C18"], "C15-N": ["C14"], "C08-M": ["C15", "C19"], "C17-N": ["C18"]}
 WT, VC = f"/tmp/sm_repo_{os.getpid()}", f"/tmp/sm_verif_{os.getpid()}"
 
 
@@ -23,7 +23,10 @@ def sh(cmd, **kw):
 
 
 sh(["git", "-C", "/repo", "worktree", "add", "--detach", WT, "HEAD"])
-sh(["rsync", "-a", "--exclude", ".git", "--exclude", "replays", "--exclude", "evidence", "/verif/", VC + "/"])
+# VERIF_SRC: evaluate with ANOTHER copy of the checks (e.g. an export of an earlier commit: "as the checks stood"); results are
+# then only printed (nothing is written back)
+SRC = os.environ.get("VERIF_SRC", "/verif").rstrip("/")
+sh(["rsync", "-a", "--exclude", ".git", "--exclude", "replays", "--exclude", "evidence", SRC + "/", VC + "/"])
 os.makedirs(VC + "/evidence", exist_ok=True)
 rows = []
 try:
@@ -53,13 +56,15 @@ try:
         finally:
             sh(["git", "-C", WT, "checkout", "--", "."])
             sh(["git", "-C", WT, "clean", "-fdq", "gpytorch"])
+        if SRC != "/verif":
+            continue
         if "seedmatrix" not in meta.get("ran", ""):
             meta["ran"] = meta.get("ran", "") + f"; tools/seedmatrix.py: git apply on a scratch worktree of /repo, vf/run.py <property> --tier {tier} with VERIF_REPO=<worktree>, git checkout -- ."
         json.dump(meta, open(f"{d}/meta.json", "w"), indent=1)
 finally:
     sh(["git", "-C", "/repo", "worktree", "remove", "--force", WT])
     shutil.rmtree(VC, ignore_errors=True)
-if not args:
+if not args and SRC == "/verif":
     with open("/verif/seeded/MATRIX.md", "w") as f:
         f.write(f"# Seeded changes vs the check of the property they break (tier {tier})\n\nRows with another property's check are cross-detections (the change's mechanism also belongs to that property).\n\n| seeded change | check | result | first witness |\n|---|---|---|---|\n")
         for r in rows:
